@@ -62,20 +62,26 @@ def make_case(key, origin, expr, vkey, **extra):
     return c
 
 
-def gen_samples(seed: int, n: int):
+MAX_LEN = 110     # longer renderings add proof cost, not bracket shapes
+
+
+def gen_samples(seed: int, n: int, render=None):
+    """Deterministic stream of (index, expression): distinct auto-evaluated trees whose rendering is at most MAX_LEN
+    characters.  `index` is the draw number, so a replay can regenerate exactly that expression."""
+    render = render or code_str
     rng = random.Random(seed)
     gen = rc.ExprGen(rng, sample_symbols())
     out = []
     seen = set()
     tries = 0
-    while len(out) < n and tries < 6 * n:
+    while len(out) < n and tries < 8 * n:
         tries += 1
         idx = tries
         try:
             e = gen.sample()
         except Exception:  # pylint: disable=broad-except
             continue   # SymPy refused to build it (e.g. zoo arithmetic)
-        if not isinstance(e, sympy.Expr) or e.has(sympy.zoo, sympy.nan, sympy.oo, -sympy.oo):
+        if not isinstance(e, sympy.Expr) or e.has(sympy.zoo, sympy.nan, sympy.oo, -sympy.oo, sympy.E):
             continue
         if e.is_Number or e.is_Symbol:
             continue
@@ -83,6 +89,11 @@ def gen_samples(seed: int, n: int):
         if k in seen:
             continue
         seen.add(k)
+        try:
+            if len(render(e)) > MAX_LEN:
+                continue
+        except Exception:  # pylint: disable=broad-except
+            pass            # a printer exception is reported by the caller
         out.append((idx, e))
     return out
 
